@@ -1,4 +1,52 @@
-import Blf.FileSeq
-/-! # C10 (theorems under construction; the executable model `Blf.FileSeq` is tied to the code by the `file` protocol) -/
+import Blf.FileSafe
+/-!
+# C10 — Corrupt or hostile input never causes a hang, a crash or undefined behaviour
+
+Proved, for every byte string (not a sample of mutations):
+
+* `C10_decoder_memory_safe`: every decoder regenerated from the current source — all classes of the object factory, the log
+  container and the base header — never reads into a container that is too small (`halt ≠ oob`), on any input, for any
+  allocation cap, on either kind of stream.  The side condition per class (`readSafe`) is decided by the kernel on the
+  regenerated program; a decoder that stops passing it (e.g. a read of `timeStampsLength` bytes into a vector of
+  `timeStampsLength / 8` elements) breaks this file.
+* `C10_read_session_ends_without_ub`: a read session on any byte string ends — the object parser consumes at least one byte of
+  the uncompressed stream per iteration — and the outcome is the null result or the exception of `open()`; never `hang`,
+  never `oob`.
+
+Modelled, not proved: `Blf.FileSeq.readFile` is what the threaded `File` does (correspondence runs on valid, mutated and
+hostile files under ASan/UBSan with a watchdog); zlib's `uncompress` returns the declared number of bytes or an error
+(`ZOK`; the code checks it); allocation above the cap throws `std::bad_alloc` (the harness caps `operator new`).
+Outside: the container loop of the model runs on fuel `|file| + 2`, which is not proved sufficient here (it is compared with
+the implementation on every run); arithmetic overflow of 32/64-bit positions.
+-/
 namespace Blf.Props
+open Blf Blf.FileSeq Blf.FileSafe
+
+/-- every decoder, every input: no out-of-bounds access -/
+theorem C10_decoder_memory_safe (c : Codec) (hc : c ∈ Gen.ObjectHeaderBase :: Gen.allCodecs) (cfg : Cfg) (inp : Bytes) :
+    (c.decode cfg c.fresh inp).halt ≠ .oob := by
+  have h := Gen.all_readSafe
+  rw [List.all_eq_true] at h
+  exact readSafe_fresh c (h c hc) cfg inp
+
+/-- a read session on arbitrary bytes ends, without undefined behaviour -/
+theorem C10_read_session_ends_without_ub (Z : Zlib) (hZ : ZOK Z) (cap : Nat) (file : Bytes) :
+    (readFile Z cap file).outcome = .ended ∨ (readFile Z cap file).outcome = .openException :=
+  readFile_outcome Z hZ cap file
+
+/-- the object parser moves forward by at least one byte per iteration and never leaves the stream -/
+theorem C10_parser_progress (cap : Nat) (ps ps' : PState) (hb : ps.st.pos ≤ ps.st.inp.length)
+    (h : objectStep cap ps = some ps') :
+    ps'.st.inp = ps.st.inp ∧ ps'.st.pos ≤ ps'.st.inp.length ∧ ps.st.pos < ps'.st.pos := by
+  obtain ⟨a, b, _, d⟩ := objectStep_facts cap ps ps' hb h
+  exact ⟨a, b, d⟩
+
+/-- non-vacuity: the checker does reject an unsafe decoder — `resize(n / 8)` followed by a read of `n` bytes -/
+example : (safeAux (fun _ => none) none
+    (Stmt.block [.rd 0 4, .resize 1 8 (.div (.fld 0) (.const 8)), .rdBuf 1 (.fld 0)])).1 = false := by decide
+
+/-- ... and that program does go out of bounds in the semantics: `n = 9` -/
+example : ((Stmt.block [.rd 0 4, .resize 1 8 (.div (.fld 0) (.const 8)), .rdBuf 1 (.fld 0)]).exec {}
+    { obj := { num := fun _ => 0, buf := fun _ => [] }, inp := [9, 0, 0, 0, 1, 2, 3, 4, 5, 6, 7, 8, 9] }).halt = .oob := by decide
+
 end Blf.Props
